@@ -26,21 +26,60 @@ type footprint struct {
 	whole map[string]bool
 	idx   map[string][]string
 	all   bool
+	// conditional targets ("modifies when c : t"): condition per (key, position in idx[key]) / per whole key; "" = always
+	idxCond   map[string][]string
+	wholeCond map[string]string
+	curCond   string
 }
 
 func (env *Env) footprintOf(c *Contract) (*footprint, error) {
+	return env.footprintOfTargets(c.Modifies, c.ModWhen)
+}
+
+func (env *Env) footprintOfTargets(mods []Expr, when []Expr) (*footprint, error) {
 	e := env.e
-	fp := &footprint{whole: map[string]bool{}, idx: map[string][]string{}}
-	add := func(k, i string) { fp.idx[k] = append(fp.idx[k], i) }
-	for _, m := range c.Modifies {
+	fp := &footprint{whole: map[string]bool{}, idx: map[string][]string{}, idxCond: map[string][]string{}, wholeCond: map[string]string{}}
+	add := func(k, i string) {
+		fp.idx[k] = append(fp.idx[k], i)
+		fp.idxCond[k] = append(fp.idxCond[k], fp.curCond)
+	}
+	for mi, m := range mods {
+		fp.curCond = ""
+		if mi < len(when) && when[mi] != nil {
+			t, err := env.evalBool(when[mi])
+			if err != nil {
+				return nil, err
+			}
+			if t == "false" {
+				continue
+			}
+			if t != "true" {
+				fp.curCond = t
+			}
+		}
+		if call, ok := m.(*ECall); ok {
+			if fid, ok := call.Fun.(*EIdent); ok && fid.Name == "effects" {
+				// inside the function itself a call through the function value can do anything
+				fp.all = true
+				continue
+			}
+		}
 		switch x := m.(type) {
 		case *EIdent:
 			if x.Name == "everything" {
 				fp.all = true
 				continue
 			}
+			if x.Name == "views" {
+				for _, gn := range e.DB.Layered {
+					if _, ok := e.DB.GhostVars[gn]; ok {
+						fp.whole["G|"+gn] = true
+					}
+				}
+				continue
+			}
 			if _, ok := e.DB.GhostVars[x.Name]; ok {
-				fp.whole["G|"+x.Name] = true
+				fp.setWhole("G|" + x.Name)
 				continue
 			}
 			return nil, fmt.Errorf("unsupported modifies target %s", exprString(m))
@@ -108,10 +147,22 @@ func (env *Env) footprintOf(c *Contract) (*footprint, error) {
 						return nil, err
 					}
 					for _, lf := range e.TI.shape(gt) {
-						fp.whole["S|"+typeStr(gt)+"|"+lf.Path] = true
+						fp.setWhole("S|" + typeStr(gt) + "|" + lf.Path)
 					}
 					continue
 				}
+			}
+			if id != nil && id.Name == "view" && len(x.Args) == 1 {
+				l, err := env.evalInt(x.Args[0])
+				if err != nil {
+					return nil, err
+				}
+				for _, gn := range e.DB.Layered {
+					if _, ok := e.DB.GhostVars[gn]; ok {
+						add("G|"+gn, l)
+					}
+				}
+				continue
 			}
 			if id != nil && id.Name == "fieldof" && len(x.Args) == 2 {
 				// fieldof(type(T), f): field f of every object of struct type T
@@ -123,7 +174,7 @@ func (env *Env) footprintOf(c *Contract) (*footprint, error) {
 						return nil, err
 					}
 					for _, k := range keys {
-						fp.whole[k[0]] = true
+						fp.setWhole(k[0])
 					}
 					continue
 				}
@@ -160,9 +211,11 @@ func (e *Enc) addMapKeys(fp *footprint, mt types.Type, m string) {
 		return
 	}
 	fp.idx[dk] = append(fp.idx[dk], m)
+	fp.idxCond[dk] = append(fp.idxCond[dk], fp.curCond)
 	for _, lf := range vleaves {
 		k, _ := mapValKey(mt, lf, ksort)
 		fp.idx[k] = append(fp.idx[k], m)
+		fp.idxCond[k] = append(fp.idxCond[k], fp.curCond)
 	}
 }
 
@@ -284,6 +337,10 @@ func verifyFunction(P *Program, db *SpecDB, ti *TypeInfo, fn *ssa.Function, c *C
 		penv.bindResults(c, result, rt)
 		e.addObl(&Obligation{Name: "cover:return", Kind: "cover", Cover: true, Clause: "a normal return is reachable under the precondition", Reach: final.reach, Goal: "false"})
 		for i, en := range c.Ensures {
+			if en.Trusted {
+				e.trustedClauses = append(e.trustedClauses, c.Key+": "+en.Src)
+				continue
+			}
 			g, err := penv.evalBool(en.E)
 			if err != nil {
 				e.unsupportedf("ensures %s: %v", en.Src, err)
@@ -302,7 +359,7 @@ func verifyFunction(P *Program, db *SpecDB, ti *TypeInfo, fn *ssa.Function, c *C
 			if err != nil {
 				e.unsupportedf("modifies: %v", err)
 			} else if !fp.all {
-				e.frameObligations(fr, final, fp, c)
+				e.frameObligations(e.writeLog, fr.entry, final, fp, "frame:", "modifies "+strings.Join(c.ModSrc, ", "), final.reach)
 			}
 		}
 	} else {
@@ -311,6 +368,11 @@ func verifyFunction(P *Program, db *SpecDB, ti *TypeInfo, fn *ssa.Function, c *C
 		}
 	}
 	// call-site assertions whose call site was not found
+	for _, key := range sortedKeys(c.CallInvariants) {
+		if !c.callSeen[key] {
+			e.unsupportedf("call-site invariant: no call site %s with an effects() callee in %s", key, fn)
+		}
+	}
 	for _, key := range sortedKeys(c.CallAsserts) {
 		if !c.callSeen[key] {
 			e.unsupportedf("call-site assertion: no call site %s in %s (call removed or renumbered?)", key, fn)
@@ -375,26 +437,26 @@ func resultTypeOfSig(sig *types.Signature) types.Type {
 
 // frameObligations: every heap component written by the function is unchanged outside the declared footprint
 // (objects allocated during the call are exempt).
-func (e *Enc) frameObligations(fr *Frame, final *State, fp *footprint, c *Contract) {
+func (e *Enc) frameObligations(written map[string]bool, entry *State, final *State, fp *footprint, prefix, what, reach string) {
 	// a path on which everything was havocked (unknown callee, callee that `modifies everything`) can change heap
 	// components this encoding never names: no finite modifies clause covers it
-	if hc := havocCond(final); hc != "false" {
-		e.addObl(&Obligation{Name: "frame:everything", Kind: "frame", Label: "", Clause: "modifies " + strings.Join(c.ModSrc, ", ") + " — but a callee on this path may modify everything", Reach: and(final.reach, hc), Goal: "false"})
+	if hc := havocCondSince(entry, final); hc != "false" {
+		e.addObl(&Obligation{Name: prefix + "everything", Kind: "frame", Label: "", Clause: what + " — but a callee on this path may modify everything", Reach: and(reach, hc), Goal: "false"})
 	}
-	keys := make([]string, 0, len(e.writeLog))
-	for k := range e.writeLog {
+	keys := make([]string, 0, len(written))
+	for k := range written {
 		keys = append(keys, k)
 	}
 	sort.Strings(keys)
 	for _, k := range keys {
-		if strings.HasPrefix(k, "RV|") || fp.whole[k] {
+		if strings.HasPrefix(k, "RV|") || (fp.whole[k] && fp.wholeCond[k] == "") {
 			continue
 		}
 		srt, ok := e.heapSort[k]
 		if !ok {
 			continue
 		}
-		entryT := e.heapGet(fr.entry, k, srt)
+		entryT := e.heapGet(entry, k, srt)
 		exitT, ok := final.heap[k]
 		if !ok || exitT == entryT {
 			continue
@@ -403,8 +465,15 @@ func (e *Enc) frameObligations(fr *Frame, final *State, fp *footprint, c *Contra
 		e.declSort(ks)
 		sk := e.fresh("frame!idx", ks)
 		var conds []string
-		for _, i := range fp.idx[k] {
-			conds = append(conds, not(eq(sk, i)))
+		for n, i := range fp.idx[k] {
+			if n < len(fp.idxCond[k]) && fp.idxCond[k][n] != "" {
+				conds = append(conds, not(and(fp.idxCond[k][n], eq(sk, i))))
+			} else {
+				conds = append(conds, not(eq(sk, i)))
+			}
+		}
+		if fp.whole[k] && fp.wholeCond[k] != "" {
+			conds = append(conds, not(fp.wholeCond[k]))
 		}
 		refIndexed := ks == "Int" && !strings.HasPrefix(k, "G|")
 		if strings.HasPrefix(k, "G|") {
@@ -413,10 +482,10 @@ func (e *Enc) frameObligations(fr *Frame, final *State, fp *footprint, c *Contra
 			}
 		}
 		if refIndexed {
-			conds = append(conds, "(<= "+sk+" alloc@0)")
+			conds = append(conds, "(<= "+sk+" "+entry.alloc+")")
 		}
 		goal := implies(and(conds...), eq("(select "+exitT+" "+sk+")", "(select "+entryT+" "+sk+")"))
-		e.addObl(&Obligation{Name: "frame:" + k, Kind: "frame", Label: "", Clause: "modifies " + strings.Join(c.ModSrc, ", ") + " — " + k + " unchanged elsewhere", Reach: final.reach, Goal: goal})
+		e.addObl(&Obligation{Name: prefix + k, Kind: "frame", Label: "", Clause: what + " — " + k + " unchanged elsewhere", Reach: reach, Goal: goal})
 	}
 }
 
@@ -424,6 +493,45 @@ func (e *Enc) frameObligations(fr *Frame, final *State, fp *footprint, c *Contra
 // where everything was havocked.
 func havocCond(st *State) string {
 	return havocCondMemo(st, map[*State]string{})
+}
+
+// havocCondSince: the same, but only for havocs that happened after state `since` (an ancestor of st; nil = function entry).
+func havocCondSince(since, st *State) string {
+	if since == nil || (since.epoch == 0 && since.mergeOf == nil) {
+		return havocCond(st)
+	}
+	memo := map[*State]string{}
+	var rec func(s *State) string
+	rec = func(s *State) string {
+		if r, ok := memo[s]; ok {
+			return r
+		}
+		r := "true"
+		if s.epoch == since.epoch && sameStates(s.mergeOf, since.mergeOf) {
+			r = "false"
+		} else if s.mergeOf != nil {
+			var cs []string
+			for i, p := range s.mergeOf {
+				cs = append(cs, and(s.mergeConds[i], rec(p)))
+			}
+			r = or(cs...)
+		}
+		memo[s] = r
+		return r
+	}
+	return rec(st)
+}
+
+func sameStates(a, b []*State) bool {
+	if len(a) != len(b) {
+		return false
+	}
+	for i := range a {
+		if a[i] != b[i] {
+			return false
+		}
+	}
+	return true
 }
 
 func havocCondMemo(st *State, memo map[*State]string) string {
@@ -500,4 +608,18 @@ func (e *Enc) fieldKeys(te *TypeExpr, name, pkgPath string, imports map[string]s
 		out = append(out, [2]string{k, srt})
 	}
 	return out, nil
+}
+
+func (fp *footprint) setWhole(k string) {
+	if fp.whole[k] && fp.wholeCond[k] == "" {
+		return // already unconditionally in the footprint
+	}
+	fp.whole[k] = true
+	if fp.curCond == "" {
+		fp.wholeCond[k] = ""
+	} else if c, ok := fp.wholeCond[k]; ok && c != "" {
+		fp.wholeCond[k] = or(c, fp.curCond)
+	} else {
+		fp.wholeCond[k] = fp.curCond
+	}
 }
